@@ -230,6 +230,42 @@ func checkClientLevel(c tcase) (kind, detail string) {
 	if d := got.diff(want); d != "" {
 		return "not-transparent", d
 	}
+	// two requests in flight: a request that was built, and is sent only after another tunnelled request was
+	// built by the same client, still carries its own query and body
+	first, err := build(c.Threshold)
+	if err != nil {
+		return "build-error", err.Error()
+	}
+	oc := c
+	oc.Query = "zz=(other:List(1,2,3))&" + c.Query + "&yy=the%20other%20request"
+	if c.HasBody {
+		oc.Body = `{"other":"request","filler":"` + strings.Repeat("x", len(c.Body)+40) + `"}`
+	}
+	saved := c
+	c = oc
+	if _, err := build(oc.Threshold); err != nil {
+		c = saved
+		return "build-error", err.Error()
+	}
+	c = saved
+	firstRaw, err := writeReq(first)
+	if err != nil {
+		return "wire", err.Error()
+	}
+	srv2, err := serverParse(firstRaw)
+	if err != nil {
+		return "wire", err.Error()
+	}
+	if err := restli.DecodeTunnelledQuery(srv2); err != nil {
+		return "aliased-between-requests", fmt.Sprintf("a request built before another tunnelled request of the same client no longer decodes: %v", err)
+	}
+	got2, err := viewOf(srv2)
+	if err != nil {
+		return "aliased-between-requests", fmt.Sprintf("a request built before another tunnelled request of the same client: %v", err)
+	}
+	if d := got2.diff(want); d != "" {
+		return "aliased-between-requests", "a request built before another tunnelled request of the same client was altered by it: " + d
+	}
 	return "", ""
 }
 
